@@ -485,6 +485,15 @@ class CallMixin:
         view = self.iter_view(v, st, node)
         return self.view_to_list(view, st)
 
+    def bi_iter(self, args, kw, st, node):
+        v = args[0]
+        view = self.iter_view(v, st, node)
+        res = self.view_to_list(view, st, oneshot=True)
+        res = V(Ref(ListT(res.kind.target.elem, True)), res.term)
+        self.set_ghost_flag(st, res.term, "oneshot", z3.BoolVal(True))
+        self.set_ghost_flag(st, res.term, "consumed", z3.BoolVal(False))
+        return res
+
     def bi_tuple(self, args, kw, st, node):
         if not args:
             return V(Tup([]), ())
@@ -719,6 +728,20 @@ class CallMixin:
         a = z3.Int("fs_a")
         f0, f1 = self.H.fld_arr(old, f, fk.sort()), self.H.fld_arr(st, f, fk.sort())
         return V(BOOL, self.forall_p([a], z3.Implies(z3.And(a >= 1, a < old.top, f0[a] != 0), f1[a] == f0[a]), [f1[a]]))
+
+    def bi_avail(self, args, kw, st, node):
+        """spec: number of items iterating the argument would yield now (0 for an exhausted one-shot iterator)"""
+        v = args[0]
+        if is_obj(v.kind) and self.field_kind(v.kind.target.cls, "individuals") is not None:
+            v = self.fget(st, v, "individuals", self.field_kind(v.kind.target.cls, "individuals"))
+        return V(INT, self.iter_len(st, v))
+
+    def bi_item(self, args, kw, st, node):
+        """spec: k-th item of an iterable (list or Population)"""
+        v = args[0]
+        if is_obj(v.kind) and self.field_kind(v.kind.target.cls, "individuals") is not None:
+            v = self.fget(st, v, "individuals", self.field_kind(v.kind.target.cls, "individuals"))
+        return self.lget(st, v, ops.to_int_term(args[1]))
 
     def bi_keysof(self, args, kw, st, node):
         """spec: keysof(d) = the dict's key list in insertion order"""
